@@ -392,7 +392,7 @@ class ValueWrapper(Term):
 
         # FIXME escape values
         if isinstance(value, Term):
-            return value.get_sql(ctx)
+            return value.get_sql(ctx.copy(with_alias=False))
         if isinstance(value, Enum):
             if isinstance(value, DatePart):
                 return value.value
@@ -528,7 +528,7 @@ class Values(Term):
         self.field = Field(field) if not isinstance(field, Field) else field
 
     def get_sql(self, ctx: SqlContext) -> str:
-        return "VALUES({value})".format(value=self.field.get_sql(ctx))
+        return "VALUES({value})".format(value=self.field.get_sql(ctx.copy(with_alias=False)))
 
 
 class LiteralValue(Term):
